@@ -216,6 +216,9 @@ func c07corpus(c *Ctx) []c07text {
 		// member order is by code point, not by UTF-16 code unit: supplementary-plane keys sort after U+E000..U+FFFF
 		"{\"\U0001F600\":2,\"\uFF21\":1,\"a\U00010000b\":3,\"a\uE000b\":4,\"\u007f\":5,\"\u0080\":6,\"Z\":7,\"\":8}",
 		"[{\"b\":[1,2],\"a\":[[1,2],{\"a\":1}]},[[1,2]],[{\"a\":1}],[]]",
+		// every control character, DEL, a surrogate pair and the characters other encoders escape
+		"{\"ctl\":\"\\u0001\\u0002\\u0007\\b\\t\\n\\u000b\\f\\r\\u000e\\u001f\\u007f\",\"sp\":\"\\ud83d\\ude00\",\"html\":\"<>&'\\u2028\\u2029/\"}",
+		`{"n":[0,-0,1,-1,10,100,1e0,1E1,1e+2,1.0,1.10,0.1e1,-0.001,12345.678e-3,1e21,1E-7,9223372036854775807,-9223372036854775808,9223372036854775808,0.000001,123.456e3]}`,
 	} {
 		out = append(out, c07text{fmt.Sprintf("lit:%d", i), []byte(s)})
 	}
